@@ -161,10 +161,14 @@ def _cls(e):
 def _run(d, froms, tos):
     """fresh trees, one call -> (outcome string, src_root, dst_root, ids)"""
     src_root, dst_root, ids = _build(d)
+    fl, tl = list(froms), list(tos)
     try:
-        _call(d, src_root, dst_root, list(froms), list(tos))
+        _call(d, src_root, dst_root, fl, tl)
     except Exception as e:  # noqa: BLE001 - the class is the observable
         return _cls(e), src_root, dst_root, ids
+    if fl != list(froms) or tl != list(tos):
+        # the two path lists belong to the caller (who may reuse them for the next tree)
+        return "caller-lists-modified", src_root, dst_root, ids
     out = "ok " + _canon(ids, dst_root)
     if src_root is not None:
         out += " | " + _canon(ids, src_root)
@@ -173,6 +177,11 @@ def _run(d, froms, tos):
 
 def impl(case):
     d = case.data
+    return _run(d, d["from"], d["to"])[0]
+
+
+def worker_impl(d):
+    """executed in a worker interpreter (props/_twoproc.py): the outcome line of one case"""
     return _run(d, d["from"], d["to"])[0]
 
 
@@ -479,6 +488,20 @@ def _check_pair(d, pre_dst, pre_src, post_dst, post_src, outcome, f, t, msgs, wh
 
 
 def oracle(case):
+    msgs = _oracle(case)
+    if not msgs:
+        here = impl(case)
+        if here in ("ValueError", "NotFoundError", "SearchError"):
+            # argument validation, a from-path that matches nothing / several nodes: refused whatever the setting of
+            # BIGTREE_CONF_ASSERTIONS (a LoopError, by contrast, IS one of the optional checks)
+            from props import _twoproc
+            off = _twoproc.refusal_differs_off("props.C08:worker_impl", case.data, here, case.line, every=6)
+            if off is not None:
+                msgs.append(f"with BIGTREE_CONF_ASSERTIONS switched off the call is no longer refused with {here}: {off[:120]}")
+    return msgs
+
+
+def _oracle(case):
     d = case.data
     msgs = []
     froms, tos = d["from"], d["to"]
